@@ -1,3 +1,211 @@
-/-! C13 model (stub) -/
+/-!
+# C13 model: validation walk, reference checks, strict decode
+
+* `validate` — `confmap/xconfmap/config.go validate`: the reflective walk that calls every reachable
+  `Validate()` and prefixes the errors with the path.
+* `rootErrs`, `pipeErr`, `allErrs` — `otelcol/config.go Config.Validate`, `service/pipelines/config.go
+  PipelineConfig.Validate`: reference, ambiguity and pipeline-shape checks.  Go map iteration picks
+  *which* error of a phase is reported; the model returns the admissible set of that phase.
+* `decode` — strict decoding of a configuration map into a schema (mapstructure with `ErrorUnused`,
+  squash, pointers, slices, maps, no weak typing) and the default-overlay it produces.
+-/
 namespace OtelVerif.C13
+
+/-! ## (a) validation walk -/
+
+/-- a configuration value as `validate` sees it.  `err`: what the node's own `Validate()` returns
+(`none`: no `Validate` method, or it returns nil).  Struct fields carry the mapstructure name and
+whether the Go field is exported. -/
+inductive VT
+  | leaf (err : Option Nat)
+  | nilv                                                  -- invalid / nil pointer / nil interface
+  | ptr (v : VT)                                          -- pointer or interface: the walk goes to the element
+  | struct (err : Option Nat) (fs : List (String × Bool × VT))
+  | seq (err : Option Nat) (vs : List VT)                 -- slice or array
+  | map (err : Option Nat) (kvs : List (String × VT × VT)) -- stringified key, key value, value
+deriving Repr
+
+abbrev Path := List String   -- outermost segment first
+
+def own (e : Option Nat) : List (Path × Nat) :=
+  match e with
+  | some n => [([], n)]
+  | none => []
+
+def pre (seg : String) (l : List (Path × Nat)) : List (Path × Nat) := l.map (fun p => (seg :: p.1, p.2))
+
+mutual
+def validate : VT → List (Path × Nat)
+  | .leaf e => own e
+  | .nilv => []
+  | .ptr v => validate v
+  | .struct e fs => own e ++ validateF fs
+  | .seq e vs => own e ++ validateL 0 vs
+  | .map e kvs => own e ++ validateKV kvs
+def validateF : List (String × Bool × VT) → List (Path × Nat)
+  | [] => []
+  | (name, exported, v) :: fs => (if exported then pre name (validate v) else []) ++ validateF fs
+def validateL : Nat → List VT → List (Path × Nat)
+  | _, [] => []
+  | i, v :: vs => pre (toString i) (validate v) ++ validateL (i + 1) vs
+def validateKV : List (String × VT × VT) → List (Path × Nat)
+  | [] => []
+  | (k, kv, v) :: kvs => pre k (validate kv) ++ pre k (validate v) ++ validateKV kvs
+end
+
+/-- the specification: the node at `path` (through exported fields, elements, map keys and values,
+pointers and interfaces) has a `Validate()` that fails with `n` -/
+inductive Fails : VT → Path → Nat → Prop
+  | leaf {n} : Fails (.leaf (some n)) [] n
+  | ptr {v p n} : Fails v p n → Fails (.ptr v) p n
+  | structOwn {n fs} : Fails (.struct (some n) fs) [] n
+  | structField {e fs name v p n} : (name, true, v) ∈ fs → Fails v p n → Fails (.struct e fs) (name :: p) n
+  | seqOwn {n vs} : Fails (.seq (some n) vs) [] n
+  | seqElem {e vs} {i : Nat} {v p n} : vs[i]? = some v → Fails v p n → Fails (.seq e vs) (toString i :: p) n
+  | mapOwn {n kvs} : Fails (.map (some n) kvs) [] n
+  | mapKey {e kvs k kv v p n} : (k, kv, v) ∈ kvs → Fails kv p n → Fails (.map e kvs) (k :: p) n
+  | mapVal {e kvs k kv v p n} : (k, kv, v) ∈ kvs → Fails v p n → Fails (.map e kvs) (k :: p) n
+
+/-! ## (b) references, ambiguity, pipeline shape -/
+
+abbrev Id := Nat
+
+structure Pipe where
+  recv : List Id
+  procs : List Id
+  exps : List Id
+deriving Repr, DecidableEq
+
+structure Top where
+  receivers : List Id
+  exporters : List Id
+  connectors : List Id
+  processors : List (Id × Bool)    -- id, config value non-nil (`cfg.Processors[ref] == nil` treats nil as absent)
+  extensions : List (Id × Bool)
+  svcExtensions : List Id
+  pipelines : List (Nat × Pipe)    -- pipeline id, config
+deriving Repr
+
+inductive RErr
+  | emptyConfig | noReceivers | noExporters
+  | ambiguousExporter (conn : Id) | ambiguousReceiver (conn : Id)
+  | danglingExtension (ref : Id)
+  | danglingReceiver (pipe : Nat) (ref : Id)
+  | danglingProcessor (pipe : Nat) (ref : Id)
+  | danglingExporter (pipe : Nat) (ref : Id)
+  | pipeNoReceivers (pipe : Nat) | pipeNoExporters (pipe : Nat) | dupProcessor (pipe : Nat) (ref : Id)
+  | noPipelines
+deriving Repr, DecidableEq
+
+def configured (m : List (Id × Bool)) (ref : Id) : Bool := m.any (fun p => p.1 == ref && p.2)
+
+/-- the first error of one pipeline's reference checks (receivers, then processors, then exporters; slices: in order) -/
+def pipeRefErr (c : Top) (pid : Nat) (p : Pipe) : Option RErr :=
+  match p.recv.find? (fun r => !(c.receivers.contains r || c.connectors.contains r)) with
+  | some r => some (.danglingReceiver pid r)
+  | none =>
+    match p.procs.find? (fun r => !configured c.processors r) with
+    | some r => some (.danglingProcessor pid r)
+    | none =>
+      match p.exps.find? (fun r => !(c.exporters.contains r || c.connectors.contains r)) with
+      | some r => some (.danglingExporter pid r)
+      | none => none
+
+/-- the connector loop: for each connector the exporter clash is tested before the receiver clash -/
+def connErr (c : Top) (conn : Id) : Option RErr :=
+  if c.exporters.contains conn then some (.ambiguousExporter conn)
+  else if c.receivers.contains conn then some (.ambiguousReceiver conn)
+  else none
+
+/-- `Config.Validate`: the set of errors it may return (exactly one of them is returned; which one of a
+map-iteration phase is Go's choice).  Empty iff it returns nil. -/
+def rootErrs (c : Top) : List RErr :=
+  if c.receivers.isEmpty && c.exporters.isEmpty && c.processors.isEmpty && c.connectors.isEmpty && c.extensions.isEmpty then [.emptyConfig]
+  else if c.receivers.isEmpty then [.noReceivers]
+  else if c.exporters.isEmpty then [.noExporters]
+  else
+    match c.connectors.filterMap (connErr c) with
+    | e :: es => e :: es
+    | [] =>
+      match c.svcExtensions.find? (fun r => !configured c.extensions r) with
+      | some r => [.danglingExtension r]
+      | none => c.pipelines.filterMap (fun p => pipeRefErr c p.1 p.2)
+
+/-- first duplicate in order: the first element that already occurred before it -/
+def firstDup : List Id → List Id → Option Id
+  | _, [] => none
+  | seen, x :: xs => if seen.contains x then some x else firstDup (x :: seen) xs
+
+/-- `PipelineConfig.Validate` -/
+def pipeErr (pid : Nat) (p : Pipe) : Option RErr :=
+  if p.recv.isEmpty then some (.pipeNoReceivers pid)
+  else if p.exps.isEmpty then some (.pipeNoExporters pid)
+  else (firstDup [] p.procs).map (.dupProcessor pid)
+
+/-- what `xconfmap.Validate(cfg)` joins: one admissible root error (if any), `pipelines.Config.Validate`, and every pipeline's own error -/
+def shapeErrs (c : Top) : List RErr :=
+  (if c.pipelines.isEmpty then [.noPipelines] else []) ++ c.pipelines.filterMap (fun p => pipeErr p.1 p.2)
+
+/-! ## (c) strict decode -/
+
+/-- what a Go type accepts.  `struct`: (key, squash?, schema) per exported field. -/
+inductive Schema
+  | scalar                                   -- string / number / bool (kind-checked; no weak typing)
+  | struct (fs : List (String × Bool × Schema))
+  | ptr (s : Schema)
+  | slice (s : Schema)
+  | map (s : Schema)                         -- map[string]T
+deriving Repr
+
+/-- configuration map values -/
+inductive Val
+  | scalar (n : Nat)
+  | map (kvs : List (String × Val))
+  | list (vs : List Val)
+deriving Repr
+
+mutual
+/-- the keys a struct accepts at this level, squashed structs flattened (mapstructure `squash`) -/
+def structKeys : List (String × Bool × Schema) → List String
+  | [] => []
+  | (k, squash, s) :: fs => (if squash then squashKeys s else [k]) ++ structKeys fs
+def squashKeys : Schema → List String
+  | .struct fs => structKeys fs
+  | _ => []
+end
+
+def lookupVal (kvs : List (String × Val)) (k : String) : Option Val := (kvs.find? (fun p => p.1 == k)).map (·.2)
+
+mutual
+/-- strict decode succeeds? (`ErrorUnused`, kind mismatches are errors) -/
+def decodeOk : Schema → Val → Bool
+  | .scalar, .scalar _ => true
+  | .scalar, _ => false
+  | .ptr s, v => decodeOk s v
+  | .slice s, .list vs => decodeAll s vs
+  | .slice _, _ => false
+  | .map s, .map kvs => decodeVals s kvs
+  | .map _, _ => false
+  | .struct fs, .map kvs => kvs.all (fun p => (structKeys fs).contains p.1) && decodeFields fs kvs
+  | .struct _, _ => false
+def decodeAll : Schema → List Val → Bool
+  | _, [] => true
+  | s, v :: vs => decodeOk s v && decodeAll s vs
+def decodeVals : Schema → List (String × Val) → Bool
+  | _, [] => true
+  | s, (_, v) :: kvs => decodeOk s v && decodeVals s kvs
+/-- every field whose key is written decodes; a squashed struct sees the same map restricted to its keys -/
+def decodeFields : List (String × Bool × Schema) → List (String × Val) → Bool
+  | [], _ => true
+  | (k, squash, s) :: fs, kvs =>
+    (if squash then
+      match s with
+      | .struct gs => decodeFields gs kvs
+      | _ => true
+     else
+      match lookupVal kvs k with
+      | some v => decodeOk s v
+      | none => true) && decodeFields fs kvs
+end
+
 end OtelVerif.C13
